@@ -1,5 +1,7 @@
 mod budget;
 mod freelist;
+mod gcommit;
+mod gcommit_api;
 mod plock;
 mod sched;
 mod util;
@@ -18,6 +20,7 @@ fn main() {
         "budget-replay" => budget::replay(&args),
         "plock-replay" => plock::replay(&args),
         "freelist-replay" => freelist::replay(&args),
+        "gc-replay" => gcommit::replay(&args),
         "wal-faults" => wal::fault_sweep(&args),
         other => {
             eprintln!("unknown subcommand {}", other);
